@@ -529,6 +529,8 @@ def _split_symmetry(chk, repo):
         any(t in ("len(sequential_brightness_list)<self.max_batch_size", "self.max_batch_size>len(sequential_brightness_list)") for t in texts)
     chk.ob("BATCH-4", "a brightness joins the running list exactly when its fade time agrees within the tolerance and the list is not full", ok, sb.where(app[0][1]),
            detail=str(sorted(got)), construct=sb.ident, text="brightness list extension exactly")
+    from sa.helpers import consume_after_wake
+    consume_after_wake(chk, "BATCH-2", su, "self.dirty_lights_changed", "a light marked dirty while a batch is being sent is picked up by the next round")
 
 
 def _stack_reads(chk, repo):
@@ -749,6 +751,7 @@ def battery():
         M("lights batched although not adjacent", BL, "                elif light.is_successor_of(sequential_lights[-1]):", "                elif light.is_successor_of(sequential_lights[-1]) or len(sequential_lights) < 2:", "BATCH-4"),
         M("brightness list ignores the fade tolerance", BL, "            if -max_fade_tolerance < common_fade_ms - fade_ms < max_fade_tolerance and \\\n                    len(sequential_brightness_list) < self.max_batch_size:", "            if len(sequential_brightness_list) < self.max_batch_size:", "BATCH-4"),
         M("keys of some entries are not found when removing", LT, "            if entry.key == key:\n                stack = self.stack[i:]", "            if entry.key == key and entry.priority:\n                stack = self.stack[i:]", "DOM-19"),
+        M("dirty flag cleared before the sleep", BL, "            await self.dirty_lights_changed.wait()\n            self.dirty_lights_changed.clear()", "            self.dirty_lights_changed.clear()\n            await self.dirty_lights_changed.wait()", "BATCH-2"),
     ]
 
 
